@@ -46,8 +46,9 @@ namespace occa {
   class json { public: bool use_host_pointer; bool own_host_pointer;
     json() : use_host_pointer(false), own_host_pointer(false) {}
     bool get(const char *key, bool dflt) const {
-      if (strcmp(key, "use_host_pointer") == 0) return use_host_pointer;
-      if (strcmp(key, "own_host_pointer") == 0) return own_host_pointer;
+      /* keys are string literals in the extracted text; told apart by their first letters (loop-free) */
+      if (key[0] == 'u' && key[1] == 's' && key[2] == 'e' && key[3] == '_' && key[4] == 'h') return use_host_pointer;
+      if (key[0] == 'o' && key[1] == 'w' && key[2] == 'n' && key[3] == '_' && key[4] == 'h') return own_host_pointer;
       __CPROVER_assert(0, "skeleton json: unknown key"); return dflt; } };
   class dtype_t { public: int bytes_; bool registered;
     dtype_t() : bytes_(1), registered(true) {}
